@@ -9,7 +9,7 @@ macro "py_simp" "[" ls:Lean.Parser.Tactic.simpLemma,* "]" : tactic =>
   `(tactic| simp [bind, Except.bind, pure, Except.pure, throw, throwThe, MonadExceptOf.throw, $ls,*])
 
 @[simp] theorem lt_int (a b : Int) : lt (.int a) (.int b) = .ok (decide (a < b)) := by
-  simp [lt, num?, isDecNan, NumV.lt, Q.lt, Q.scaled, pure, Except.pure]
+  simp [lt, num?, isDecNan, isDec, isFloatNan, NumV.lt, Q.lt, Q.scaled, pure, Except.pure]
 
 @[simp] theorem eq_int (a b : Int) : eq (.int a) (.int b) = decide (a = b) := by
   simp [eq, eqScalar, num?, NumV.eq, Q.eq, Q.scaled]
